@@ -437,8 +437,24 @@ def r_dispatch(ctx, model):
 
 
 def r_plot(ctx, model):
+    """plot_modes folded on a small concrete (q, m) table - 2 q-points x 5 modes, every cell its own atom - for n = 0, 1, 2 and both
+    q-points: the curves handed to ax.plot are exactly the non-acoustic modes' curves of the quantity selected by n, each once (in any
+    order), against the volume grid"""
+    from ..sym import ArrV, Tup
     seeds, intr, calc = physics_seeds(model)
-    calc.attrs["np"] = sp.Integer(5)
+    NQ_, NP_ = 2, 5
+    calc.attrs["np"], calc.attrs["nq"] = sp.Integer(NP_), sp.Integer(NQ_)
+    roles, _ = interpolate_modes_roles(model)
+    names = {0: "omega", 1: "gamma", 2: "V dgamma/dV"}
+
+    def table(tag):
+        a = ArrV(1, (NQ_, NP_))
+        for q in range(NQ_):
+            for m in range(NP_):
+                a.cells[(q, m)] = sp.Symbol(f"{tag}_{q}_{m}", real=True)
+        return a
+    tabs = {0: table("OMEGA"), 1: table("GAMMA"), 2: table("VDGDV")}
+    intr["cij.core.mode_gamma:interpolate_modes"] = lambda ev, a, k: Tup([tabs[r] for r in roles])
     plotted = []
 
     class Ax:
@@ -452,10 +468,8 @@ def r_plot(ctx, model):
     ref = "cij.plot.modes:ModePlotter.plot_modes"
     f = model.func(ref)
     w = model.where(ref, f)
-    want = {0: FREQ * U.UNIT_TABLE["cm"], 1: GAMMA, 2: VDR}
-    names = {0: "omega", 1: "gamma", 2: "V dgamma/dV"}
     for n in (0, 1, 2):
-        for iq, nlines in ((0, 2), (1, 5)):
+        for iq in (0, 1):
             del plotted[:]
             ev = Ev(model, seeds, intr, ctx=ctx)
             ev.seeds[("cij.plot.modes:ModePlotter", "volumes")] = sp.Symbol("PLOTVOLS")
@@ -463,24 +477,19 @@ def r_plot(ctx, model):
             try:
                 ev.call_def(f, model.mods["cij.plot.modes"], ref, [plotter, Ax(), sp.Integer(n), sp.Integer(iq)], {})
             except AnalysisError as e:
-                if n != 0 or "iteration over a non-constant" not in e.reason:
+                # the scatter of the input frequencies (n = 0 only, after the curves) reads the phonon file: not part of this clause
+                if n != 0 or not any(kind == "plot" for kind, _ in plotted) or "iteration over a non-constant" not in e.reason:
                     raise
             lines = [a for kind, a in plotted if kind == "plot"]
-            bases = set()
-            for a in lines:
-                y = as_sym(a[1])
-                core = [t for t in sp.Mul.make_args(y) if is_indexed(t)]
-                inner = core[0].args[0] if core else y
-                while is_indexed(inner) or (isinstance(inner, sp.Mul) and any(is_indexed(t) for t in inner.args)):
-                    t2 = [t for t in sp.Mul.make_args(inner) if is_indexed(t)]
-                    inner = sp.Mul(*[t for t in sp.Mul.make_args(inner) if not is_indexed(t)]) * t2[0].args[0]
-                rest = sp.Mul(*[t for t in sp.Mul.make_args(y) if not is_indexed(t)])
-                bases.add(sp.simplify(rest * inner))
-            ok = bases == {want[n]} and len(lines) == nlines
-            ctx.check(ok, f"plot_modes n={n} iq={iq} draws {names[n]} ({nlines} modes)", w, expected=f"{nlines} lines of {want[n]}",
-                      found=f"{len(lines)} lines of {sorted(map(str, bases))}",
-                      explanation=f"the diagnostic plot for n={n} does not draw {names[n]} (or does not skip the Gamma acoustic modes)",
-                      key=f"plot.n{n}")
+            want = sorted(sp.srepr(tabs[n].get((iq, m))) for m in range(NP_) if not (iq == 0 and m < 3))
+            got = sorted(sp.srepr(sp.sympify(as_sym(a[1]))) for a in lines)
+            xs = {sp.srepr(sp.sympify(as_sym(a[0]))) for a in lines}
+            ok = got == want and len(xs) == 1
+            ctx.check(ok, f"plot_modes n={n} iq={iq} draws {names[n]} of each of the {len(want)} non-acoustic modes once", w,
+                      expected=f"{len(want)} curves: {names[n]}[q={iq}, m] for the non-acoustic m, against the volume grid",
+                      found=f"{len(lines)} curves: {[str(as_sym(a[1]))[:40] for a in lines][:5]}",
+                      explanation=f"the diagnostic plot for n={n} does not draw {names[n]} of every non-acoustic mode of the q-point exactly once (a curve that is no single "
+                                  f"mode's curve, a Gamma acoustic mode, another quantity or another q-point is drawn)", key=f"plot.n{n}")
 
 
 RULE_TEXT = {
